@@ -52,7 +52,7 @@ def gen_case(rng: random.Random, tier: str):
         else:
             k = rng.randint(1, min(4, n - i))
             mode = "batch"
-        uses = [rng.choice(["parse", "default", "dumps", "len", "eq", "parse_fail"]) for _ in range(rng.randint(0, 3))]
+        uses = [rng.choice(["parse", "default", "dumps", "len", "eq", "parse_fail", "array_of"]) for _ in range(rng.randint(0, 3))]
         steps.append({"n": k, "mode": mode, "uses": uses, "extra_commit": rng.random() < 0.2})
         i += k
     return {"cfg": cfg, "defs": defs, "selfref": rng.randrange(n + 1) if rng.random() < 0.3 else None, "steps": steps,
@@ -119,6 +119,21 @@ def _behaviour(T, inputs):
         out.append(["len", len(T)])
     except TypeError:
         out.append(["len", "dynamic"])
+    # array types of the finished class
+    try:
+        A2 = T[2]
+        try:
+            out.append(["array_len", len(A2)])
+        except TypeError:
+            out.append(["array_len", "dynamic"])
+        for data in inputs[:2]:
+            st_ = io.BytesIO(data + data)
+            try:
+                out.append(["array_parse", observe(A2(st_), anon=True), st_.tell()])
+            except Exception as e:  # noqa: BLE001
+                out.append(["array_parse", type(e).__name__])
+    except Exception as e:  # noqa: BLE001
+        out.append(["array", type(e).__name__])
     return out
 
 
@@ -306,6 +321,8 @@ def _use(T, kind, data):
             len(T)
         elif kind == "eq":
             T() == T()  # noqa: B015
+        elif kind == "array_of":
+            len(T[2])  # an array type of the (possibly still incomplete) class
     except Exception:  # noqa: BLE001 - an intermediate class may legitimately be unusable
         pass
 
